@@ -189,7 +189,8 @@ class QBitsTensor(QTensor):
         overload, op = op, op.overloadpacket
         # Look for a dispatched op accepting QBitsTensor inputs
         qdispatch = get_qbitstensor_op_dispatch(op)
-        if qdispatch is not None:
+        if qdispatch is not None and "out" not in (kwargs or {}):
+            # (the quantized operations return a new Tensor: an explicit output Tensor can only receive the float result)
             return qdispatch(*args, **kwargs)
         if type(args[0]) == QBitsTensor:
             functional = functional_variant(overload)
